@@ -53,6 +53,33 @@ claim("C19",
       "reference for what was written; fresh request ids assumed 8 characters.",
       "TLC exhaustive model checking + vectors replayed on real code + TLC trace validation", "DESIGN.md 6 (C19)")
 
+claim("C05",
+      "ErrorMap.tla (declared error tables at method/service/API level with shared statuses, ErrorResult and user types, declared flags; service outcomes: declared, "
+      "wrapped, undeclared ServiceError x 8 flag combinations, plain error; four request decode failures) is model-checked exhaustively; every case runs through "
+      "the real generated server and client and status, goa-error header, body, WriteHeader count and the client's error are compared with the model.",
+      HTTP_NOTE + " What the client returns for an undeclared error is not constrained (the statement does not fix it).",
+      "TLC exhaustive model checking + TLC-generated cases replayed on generated code", "DESIGN.md 6 (C05)")
+claim("C06",
+      "Security.tla (requirement lists at API/service/method level, NoSecurity, inheritance, the generated endpoint's nested or-of-ands control flow, credential "
+      "classes) is model-checked exhaustively (285k states); every case runs through the real generated client/server with a recording Auther whose verdicts come "
+      "from the vector; invoke flag, callbacks made, credentials, declared/required scopes and the denial error are judged against the model.",
+      HTTP_NOTE + " The exact order of callbacks is not constrained, only which may be called and that a grant is witnessed by a fully checked requirement.",
+      "TLC exhaustive model checking + TLC-generated cases replayed on generated code", "DESIGN.md 6 (C06)")
+claim("C08",
+      "Views.tla (catalogue of result-type graphs: flat, nested with per-attribute view overrides, collection, recursive; views chosen by the service or fixed in "
+      "the design; undefined view label) is model-checked exhaustively; every case runs through the real generated server and client; body keys on the wire "
+      "(recursively), goa-view header and the fields set on the client's result are compared with the model's projection.",
+      HTTP_NOTE + " The recursive graph G4 is set aside while its generated code does not compile (a C01 finding).",
+      "TLC exhaustive model checking + TLC-generated cases replayed on generated code", "DESIGN.md 6 (C08)")
+claim("C17",
+      "Formats.tla gives each of the 14 formats a constructive instance space (field records over boundary sets, RFC validity predicate) plus single-point "
+      "corruptions; all instances are rendered and judged by the real goa.ValidateFormat. PatternCache.tla (PlusCal: RWMutex-protected cache, regex semantics in "
+      "TLA+) is model-checked for 3-4 goroutines; TLC-chosen interleavings are replayed through blocking verif hooks in ValidatePattern, hook-recorded traces of "
+      "1-16 goroutines under -race are validated by TLC, and every verdict is compared with the TLA+ regex semantics.",
+      "Trusted: the renderers (purely syntactic), the Go race detector (race reports are an observed fact), the verif hook (add-only, guarded). "
+      "Instance classes where RFC and Go's parsers legitimately disagree are not generated (listed in evidence assumptions).",
+      "TLC exhaustive model checking + schedule replay through hooks + TLC trace validation", "DESIGN.md 6 (C17)")
+
 for p in ALL:
     if p not in CLAIMED:
         NOT_APPLICABLE[p] = "check not built yet in this revision (planned with the same technique, see DESIGN.md section 6)"
